@@ -438,6 +438,39 @@ func rTaskMapGet(id string) func(w *World, r *Report) {
 			ru.Check(good, "TaskMap.Get/found", w.IPos(ret), "returns the stored *Task", "TaskMap.Get returns something other than the stored Task (a copy): two graphs no longer share the task's lock and can run it at the same time")
 		}
 		if n == 0 {
+			// single exit: the result is a variable that holds the stored element on the edge that comes from the
+			// successful lookup
+			for _, b := range fn.Blocks {
+				ret, ok := b.Instrs[len(b.Instrs)-1].(*ssa.Return)
+				if !ok || len(ret.Results) == 0 {
+					continue
+				}
+				phi, ok := ret.Results[0].(*ssa.Phi)
+				if !ok {
+					continue
+				}
+				for i, e := range phi.Edges {
+					var lk *ssa.Lookup
+					for _, f := range factsAt(phi.Block().Preds[i]) {
+						if f.Op == token.ILLEGAL && f.Truth {
+							if ex, ok := f.X.(*ssa.Extract); ok && ex.Index == 1 {
+								if l2, ok := ex.Tuple.(*ssa.Lookup); ok {
+									lk = l2
+								}
+							}
+						}
+					}
+					if lk == nil {
+						continue
+					}
+					n++
+					ex, ok := e.(*ssa.Extract)
+					good := ok && ex.Index == 0 && ex.Tuple == ssa.Value(lk)
+					ru.Check(good, "TaskMap.Get/found", w.IPos(ret), "returns the stored *Task", "TaskMap.Get returns something other than the stored Task (a copy): two graphs no longer share the task's lock and can run it at the same time")
+				}
+			}
+		}
+		if n == 0 {
 			ru.Bad("TaskMap.Get/found", w.Pos(fn.Pos()), "no return under a successful lookup")
 		}
 	}
